@@ -123,59 +123,77 @@ def started_tasks(repo, fi):
     return out
 
 
+class ConnectionModel:
+    """A GeckoAsyncSpa built by its constructor with stand-in collaborators; `_connect` runs on a model event loop up to
+    its first request (which the model protocol leaves unanswered).  What the code did is on the object: .tasks (every
+    add_task call), .cancelled (cancel_key_tasks keys), .events (what the event handler was told), .transport (its
+    .attrs['closed'] counts close() calls), .protocol (the object the protocol factory built), .spa"""
+
+    def __init__(self, repo, connect=True):
+        from .absint import BoundMethod, ClassRef, Closure, Interp, Native, Obj, PyRaise, Undecided
+        from .core import AnalysisError
+        S = "GeckoAsyncSpa"
+        self.repo = repo
+        it = self.it = Interp(repo, max_depth=14)
+        tasks = self.tasks = []
+        self.cancelled = []
+        self.events = []
+        tm = Obj(None, {"add_task": Native(lambda a, k: tasks.append((a[0], a[1] if len(a) > 1 else k.get("name_"), a[2] if len(a) > 2 else k.get("key_"))), "add_task"),
+                        "cancel_key_tasks": Native(lambda a, k: self.cancelled.append(a[0] if a else None), "cancel_key_tasks"), "unique_id": "SPA-ID", "spa_name": "My spa"}, name="taskman")
+        descriptor = Obj(None, {"destination": ("10.0.0.5", 10022), "identifier": b"SPA-ID", "identifier_as_string": "SPA-ID", "name": "My spa",
+                                "ipaddress": "10.0.0.5", "port": 10022}, name="descriptor")
+        transport = self.transport = Obj(None, {"closed": 0, "sendto": Native(lambda a, k: None), "is_closing": Native(lambda a, k: False)}, name="transport")
+        transport.attrs["close"] = Native(lambda a, k: transport.attrs.__setitem__("closed", transport.attrs["closed"] + 1), "close")
+        self.protocol = None
+
+        def endpoint(a, k):
+            proto = a[0]([], {}) if isinstance(a[0], Closure) else it.apply(a[0], [], {})
+            if isinstance(proto, Obj) and proto.cls is not None:
+                cm = repo.method(proto.cls.short, "connection_made", required=False)
+                if cm is not None:
+                    it.call(cm, proto, [transport])
+                proto.attrs["get"] = Native(lambda a2, k2: None, "get")   # nobody answers: _connect gives up at its first request
+            self.protocol = proto
+            return (transport, proto)
+        loop = Obj(None, {"create_future": Native(lambda a, k: Obj(None, {"done": Native(lambda a2, k2: False), "set_result": Native(lambda a2, k2: None)}, name="future")),
+                          "create_datagram_endpoint": Native(endpoint, "create_datagram_endpoint")}, name="loop")
+        spa_box = []
+
+        def hook(it_, node, callee, args, kwargs):
+            nm = getattr(callee, "name", "")
+            if nm in ("asyncio.get_running_loop", "asyncio.get_event_loop"):
+                return loop
+            if nm == "asyncio.sleep":
+                return None
+            if nm in ("time.monotonic",):
+                return 100.0
+            if isinstance(callee, BoundMethod) and callee.fi.name == "consume":
+                return Obj(None, {"kind": "consume", "handler": callee.obj}, name="coroutine<consume>")
+            if isinstance(callee, BoundMethod) and spa_box and callee.obj is spa_box[0] and callee.fi.is_async and callee.fi.name not in ("_connect", "disconnect", "connect"):
+                return Obj(None, {"kind": "coroutine", "method": callee.fi.name}, name=f"coroutine<{callee.fi.name}>")
+            return NotImplemented
+        it.call_hook = hook
+        try:
+            spa = self.spa = it.apply(ClassRef(repo.cls(S)), [b"CLIENT-ID", descriptor, tm, Native(lambda a, k: self.events.append(getattr(a[0], "name", str(a[0])) if a else None), "event_handler")], {})
+            spa_box.append(spa)
+            if connect:
+                it.steps = 0
+                it.call(repo.method(S, "_connect"), spa, [])
+        except PyRaise as e:
+            raise AnalysisError(f"{S}._connect on the model event loop raises {e.what}")
+        except Undecided as e:
+            raise AnalysisError(f"{S}._connect on the model event loop: {e}")
+
+
 def connection_tasks(repo):
-    """The tasks GeckoAsyncSpa._connect starts, by interpretation: a GeckoAsyncSpa is built by its constructor with
-    stand-in collaborators, `_connect` runs on a model event loop up to its first request (which the model protocol
-    leaves unanswered), and every add_task call is recorded.  Returns a list of dicts
+    """The tasks GeckoAsyncSpa._connect starts, by interpretation (ConnectionModel): every add_task call is recorded.
+    Returns a list of dicts
       {"name", "key", "kind": "consume" | "coroutine", "handler": class name | None, "callbacks": [method names],
        "coroutine": method name | None}
     however the calls are spelled (helpers, tables of factories, loops)."""
-    from .absint import BoundMethod, ClassRef, Closure, Interp, Native, Obj, Opaque, PyRaise, Undecided
-    from .core import AnalysisError
-    S = "GeckoAsyncSpa"
-    it = Interp(repo, max_depth=14)
-    tasks = []
-    tm = Obj(None, {"add_task": Native(lambda a, k: tasks.append((a[0], a[1] if len(a) > 1 else k.get("name_"), a[2] if len(a) > 2 else k.get("key_"))), "add_task"),
-                    "cancel_key_tasks": Native(lambda a, k: None, "cancel_key_tasks"), "unique_id": "SPA-ID", "spa_name": "My spa"}, name="taskman")
-    descriptor = Obj(None, {"destination": ("10.0.0.5", 10022), "identifier": b"SPA-ID", "identifier_as_string": "SPA-ID", "name": "My spa",
-                            "ipaddress": "10.0.0.5", "port": 10022}, name="descriptor")
-    transport = Obj(None, {"close": Native(lambda a, k: None), "sendto": Native(lambda a, k: None), "is_closing": Native(lambda a, k: False)}, name="transport")
-
-    def endpoint(a, k):
-        proto = a[0]([], {}) if isinstance(a[0], Closure) else it.apply(a[0], [], {})
-        if isinstance(proto, Obj) and proto.cls is not None:
-            cm = repo.method(proto.cls.short, "connection_made", required=False)
-            if cm is not None:
-                it.call(cm, proto, [transport])
-            proto.attrs["get"] = Native(lambda a2, k2: None, "get")   # nobody answers: _connect gives up at its first request
-        return (transport, proto)
-    loop = Obj(None, {"create_future": Native(lambda a, k: Obj(None, {"done": Native(lambda a2, k2: False), "set_result": Native(lambda a2, k2: None)}, name="future")),
-                      "create_datagram_endpoint": Native(endpoint, "create_datagram_endpoint")}, name="loop")
-    spa_box = []
-
-    def hook(it_, node, callee, args, kwargs):
-        nm = getattr(callee, "name", "")
-        if nm in ("asyncio.get_running_loop", "asyncio.get_event_loop"):
-            return loop
-        if nm == "asyncio.sleep":
-            return None
-        if nm in ("time.monotonic",):
-            return 100.0
-        if isinstance(callee, BoundMethod) and callee.fi.name == "consume":
-            return Obj(None, {"kind": "consume", "handler": callee.obj}, name="coroutine<consume>")
-        if isinstance(callee, BoundMethod) and spa_box and callee.obj is spa_box[0] and callee.fi.is_async and callee.fi.name != "_connect":
-            return Obj(None, {"kind": "coroutine", "method": callee.fi.name}, name=f"coroutine<{callee.fi.name}>")
-        return NotImplemented
-    it.call_hook = hook
-    try:
-        spa = it.apply(ClassRef(repo.cls(S)), [b"CLIENT-ID", descriptor, tm, Native(lambda a, k: None, "event_handler")], {})
-        spa_box.append(spa)
-        it.steps = 0
-        it.call(repo.method(S, "_connect"), spa, [])
-    except PyRaise as e:
-        raise AnalysisError(f"{S}._connect on the model event loop raises {e.what}")
-    except Undecided as e:
-        raise AnalysisError(f"{S}._connect on the model event loop: {e}")
+    from .absint import BoundMethod, Obj
+    cm = ConnectionModel(repo)
+    tasks, spa = cm.tasks, cm.spa
     out = []
     for coro, name, key in tasks:
         d = {"name": name, "key": key, "kind": None, "handler": None, "callbacks": [], "coroutine": None}
@@ -190,3 +208,33 @@ def connection_tasks(repo):
             d["coroutine"] = coro.attrs["method"]
         out.append(d)
     return out
+
+
+def connected_flag_stores(repo, cname, fi, want):
+    """Statements of `fi` (AST nodes) that store into an attribute the `is_connected` property of class `cname` reads,
+    with a value under which that property - interpreted on an instance holding just that attribute - reads `want`
+    (True / False).  The flag is identified by what is_connected reads, not by its name or its representation (a bool,
+    an enum member, a state string)."""
+    import ast as _ast
+    from .absint import Interp, Obj, PyRaise, Undecided
+    prop = repo.method(cname, "is_connected", required=False)
+    if prop is None:
+        return [], set()
+    attrs = {n.attr for n in _ast.walk(prop.node) if isinstance(n, _ast.Attribute) and isinstance(n.value, _ast.Name) and n.value.id == "self"}
+    out = []
+    it = Interp(repo, max_depth=6)
+    for n in _ast.walk(fi.node):
+        if not isinstance(n, (_ast.Assign, _ast.AnnAssign)) or getattr(n, "value", None) is None:
+            continue
+        tgs = n.targets if isinstance(n, _ast.Assign) else [n.target]
+        for t in tgs:
+            if isinstance(t, _ast.Attribute) and isinstance(t.value, _ast.Name) and t.value.id == "self" and t.attr in attrs:
+                try:
+                    val = it.eval(n.value, {"__mod__": fi.mod, "__class__": fi.cls})
+                    obj = Obj(repo.cls(cname), {t.attr: val})
+                    got = it.call(prop, obj, [])
+                except (PyRaise, Undecided):
+                    continue
+                if got is want:
+                    out.append(n)
+    return out, attrs
